@@ -179,6 +179,33 @@ func c15(ctx *Ctx) (*Outcome, error) {
 		off.Pair = &sem.Case{Root: root, Sig: off.Sig, Args: []string{"--min-sized-ints"}}
 		cases = append(cases, off)
 	}
+	// a default that lies outside the stated bounds, on a limit of some sized type (what an absent key decodes to is
+	// not judged - the default is not valid for its schema -, but a PRESENT value is held to the bounds whatever the
+	// default is, with and without the flag)
+	for i := 0; i < 6; i++ {
+		type bd struct{ min, max, def float64 }
+		sets := [][]bd{
+			{{1, 100, 0}, {0, 100, 255}}, {{-100, 100, -128}, {-100, 100, 127}}, {{0, 1000, 65535}, {-1000, 1000, -32768}},
+			{{1, 100, 255}, {0, 200, 255}}, {{10, 20, 0}, {-5, 5, 127}}, {{0, 255, 255}, {-128, 127, -128}},
+		}[i%6]
+		root := &sg.Schema{Types: []string{"object"}}
+		var docs []docgen.Doc
+		for k, b := range sets {
+			name := fmt.Sprintf("n%d", k)
+			s := &sg.Schema{Types: []string{"integer"}, Min: sg.Fp(b.min), Max: sg.Fp(b.max), Default: jsonx.N(int64(b.def)), HasDefault: true}
+			root.Props = append(root.Props, sg.Prop{Name: name, S: s})
+			for _, v := range []float64{b.min - 1, b.min, b.max, b.max + 1, b.def, -129, -128, 127, 128, 255, 256, 0, 65535, 65536} {
+				st := "reject"
+				if v >= b.min && v <= b.max {
+					st = "accept"
+				}
+				docs = append(docs, docgen.Doc{V: jsonx.Obj{{K: name, V: jsonx.N(int64(v))}}, Class: "bound", Label: "present-next-to-odd-default", Stated: st})
+			}
+		}
+		off := &sem.Case{Root: root, Sig: fmt.Sprintf("minsized-odd-default/%d", i), NoAuto: true, Docs: docs}
+		off.Pair = &sem.Case{Root: root, Sig: off.Sig, Args: []string{"--min-sized-ints"}}
+		cases = append(cases, off)
+	}
 	// nullable named definitions (recorded finding named-nullable-scalar-no-rules shows on the flag-off side)
 	for i := 0; i < 4; i++ {
 		off := nullableDefCase(i)
